@@ -84,7 +84,14 @@ def _ig():
         assert not (a and b), case
         assert a != b, ("depth 4 insufficient or fixpoint wrong", case)
         n += 1
-    return "ig: %d grammars: stack-profile fixpoint agrees with explicit derivations (stack depth <= 4)" % n
+    for gen, depth in ((G.stack_chain_cases(5, 3), 6), (G.dup_chain_cases(), 2)):
+        for k, case in enumerate(gen):
+            if k % 3:
+                continue
+            g = RI.IG(G.ref_rules(case))
+            assert g.is_empty() != g.is_nonempty_bounded(depth), ("chain family", case)
+            n += 1
+    return "ig: %d grammars (<= 3 rules, stack chains, duplication chains): stack-profile fixpoint agrees with explicit derivations" % n
 
 
 def _fst():
